@@ -625,6 +625,10 @@ fn check_run(c: &Case, expected: &Option<String>, obs: &Observed) -> Option<(Str
     None
 }
 
+fn run_crash(c: &Case, cfg: &SimConfig, decider: Decider) -> Observed {
+    run_script_with(&spec_of(c), cfg, decider, |_| {}, crate::shellrun::crash_env(cfg))
+}
+
 fn run_one(
     c: &Case,
     cfg: &SimConfig,
@@ -734,11 +738,39 @@ impl Prop for C14 {
                 return Some(failure(&case, &cfg, &obs, &[], v));
             }
         }
+        // crash injection: a stage is killed (SIGKILL from outside) at a seeded
+        // instant. The data oracle no longer applies; every surviving process
+        // must still terminate (EOF for readers, EPIPE for writers).
+        let crash_runs = match tier {
+            Tier::Quick => 1,
+            Tier::Thorough => 3,
+        };
+        for j in 0..crash_runs {
+            let mut cfg = draw_config(&mut rng, 1 + j);
+            cfg.crash_permille = *rng.pick(&[10u32, 40, 120]);
+            cfg.crash_max = rng.range(1, 2);
+            let obs = run_crash(&case, &cfg, Decider::record(Rng::stream(seed, 1490 + j as u64, index)));
+            stats.note_run(case_hash ^ 0xC4A5, &obs.outcome, obs.faults_fired);
+            stats.add_counters(&obs.counters);
+            stats.digest(index, obs_digest(&obs));
+            if let Some(mut v) = crate::shellrun::check_liveness(&obs) {
+                stats.count("violating_runs", 1);
+                v.1 = format!("crash:{}", v.1);
+                return Some(failure(&case, &cfg, &obs, &[], v));
+            }
+        }
         None
     }
 
     fn rerun(&self, case: &Value, cfg: &SimConfig, decisions: &[Decision]) -> Option<Failure> {
         let c: Case = serde_json::from_value(case.clone()).ok()?;
+        if cfg.crash_permille > 0 {
+            let obs = run_crash(&c, cfg, Decider::replay(decisions));
+            return crate::shellrun::check_liveness(&obs).map(|mut v| {
+                v.1 = format!("crash:{}", v.1);
+                failure(&c, cfg, &obs, decisions, v)
+            });
+        }
         let (obs, v) = run_one(&c, cfg, Decider::replay(decisions), inject_rate(&c, cfg));
         v.map(|v| failure(&c, cfg, &obs, decisions, v))
     }
